@@ -27,6 +27,7 @@ type c19Schema struct {
 	yaml string
 	// which input fields exist (drives the program built on top)
 	hasS, hasFlag, hasL, hasO, hasF bool
+	hasLD bool // list field with default [] read through plain expressions (in a step input and in the output)
 }
 
 func propYAML(name, typ string, required bool, def string) string {
@@ -50,6 +51,7 @@ func c19Schemas() []*c19Schema {
 		{name: "string-default", hasS: true, yaml: root(propYAML("n", intT, true, "")+propYAML("s", "type_id: string\nmin: 1\nmax: 5\n", false, `"dflt"`), "")},
 		{name: "bool", hasFlag: true, yaml: root(propYAML("n", intT, true, "")+propYAML("flag", "type_id: bool\n", false, "true"), "")},
 		{name: "list", hasL: true, yaml: root(propYAML("n", intT, true, "")+propYAML("l", "type_id: list\nitems:\n  type_id: integer\nmin: 1\nmax: 3\n", false, ""), "")},
+		{name: "list-default", hasLD: true, yaml: root(propYAML("n", intT, true, "")+propYAML("l", "type_id: list\nitems:\n  type_id: integer\n", false, `"[]"`), "")},
 		{name: "float", hasF: true, yaml: root(propYAML("n", intT, true, "")+propYAML("f", "type_id: float\n", false, "1.5"), "")},
 		{name: "object", hasO: true, yaml: root(propYAML("n", intT, true, "")+propYAML("o", "type_id: ref\nid: scripted-sub\n", false, ""),
 			"  scripted-sub:\n    id: scripted-sub\n    properties:\n      a:\n        type:\n          type_id: integer\n      b:\n        required: false\n        default: '\"bee\"'\n        type:\n          type_id: string\n")},
@@ -67,6 +69,10 @@ func (cs *c19Schema) program() *Program {
 	if cs.hasL {
 		in = append(in, "l", Opt{true, "$.input.l"})
 		in2 = append(in2, "l", Opt{true, "$.input.l"})
+	}
+	if cs.hasLD {
+		in = append(in, "l", E("$.input.l"))
+		in2 = append(in2, "l", E("$.input.l"))
 	}
 	if cs.hasO {
 		in = append(in, "o", Opt{true, "$.input.o"})
@@ -86,6 +92,9 @@ func (cs *c19Schema) program() *Program {
 	if cs.hasF {
 		out = append(out, "f", E("$.input.f"))
 	}
+	if cs.hasLD {
+		out = append(out, "l", E("$.input.l"), "m", O("inner", E("$.input.l")))
+	}
 	p.Outputs = []Output{{"success", O(out...)}}
 	return p
 }
@@ -104,6 +113,9 @@ func (cs *c19Schema) docs() []any {
 	}
 	if cs.hasL {
 		docs = append(docs, map[string]any{"n": 1, "l": []any{1, "2"}}, map[string]any{"n": 1, "l": []any{}}, map[string]any{"n": 1, "l": []any{1, 2, 3, 4}}, map[string]any{"n": 1, "l": "x"}, map[string]any{"n": 1, "l": []any{"x"}})
+	}
+	if cs.hasLD {
+		docs = append(docs, map[string]any{"n": 1, "l": []any{}}, map[string]any{"n": 1, "l": []any{1, "2"}}, map[string]any{"n": 1, "l": []any{0}}, map[string]any{"n": 1, "l": "x"}, map[string]any{"n": 1, "l": nil})
 	}
 	if cs.hasF {
 		docs = append(docs, map[string]any{"n": 1, "f": 2.25}, map[string]any{"n": 1, "f": "2.5"}, map[string]any{"n": 1, "f": 3}, map[string]any{"n": 1, "f": "abc"})
